@@ -61,29 +61,30 @@ type GhostHook struct {
 }
 
 type Contract struct {
-	Key          string
-	Line         int
-	Props        []string
-	Requires     []*Clause
-	Ensures      []*Clause
-	Goals        []*Clause
-	Assigns      []string
-	Holds        []string            // object-invariant clauses (`holds P`)
-	CallbackKeep []string            // `callbacks-keep K...`: function values called by this function leave these heaps alone (assumed, listed)
-	AssignsAt    map[string][]string // `assigns K@p`: heap K is written only at the object parameter p points to (or at fresh objects)
-	HasAssigns   bool
-	Pure         bool
-	Inline       bool
-	Trusted      bool
-	NilRecv      bool // the method accepts a nil receiver
-	NoVerify     bool // contract used at call sites but body not verified here (listed as assumption)
-	Loops        map[int]*LoopContract
-	Closures     map[string]*ClosureContract
-	Exempts      []*Exempt
-	GhostVars    []*GhostVar
-	Hooks        []*GhostHook
-	Cost         *Clause
-	Notes        []string
+	Key            string
+	Line           int
+	Props          []string
+	Requires       []*Clause
+	Ensures        []*Clause
+	Goals          []*Clause
+	Assigns        []string
+	Holds          []string            // object-invariant clauses (`holds P`)
+	CallbackKeep   []string            // `callbacks-keep K...`: function values called by this function leave these heaps alone (assumed, listed)
+	AssignsAt      map[string][]string // `assigns K@p`: heap K is written only at the object parameter p points to (or at fresh objects)
+	HasAssigns     bool
+	Pure           bool
+	Inline         bool
+	Trusted        bool
+	NilRecv        bool // the method accepts a nil receiver
+	NoVerify       bool // contract used at call sites but body not verified here (listed as assumption)
+	AdvisorySafety bool // `advisory-safety`: panic-freedom obligations of the body are advisory (claimed through the ledger)
+	Loops          map[int]*LoopContract
+	Closures       map[string]*ClosureContract
+	Exempts        []*Exempt
+	GhostVars      []*GhostVar
+	Hooks          []*GhostHook
+	Cost           *Clause
+	Notes          []string
 }
 
 type Lemma struct {
@@ -344,6 +345,8 @@ func ParseContracts(src string) *ContractFile {
 			cur.Trusted = true
 		case "noverify":
 			cur.NoVerify = true
+		case "advisory-safety":
+			cur.AdvisorySafety = true
 		case "note":
 			cur.Notes = append(cur.Notes, rest)
 		case "loop":
